@@ -261,7 +261,7 @@ impl LWorld {
             SHUTDOWN => { self.loop_dead = true; }
             CONNECTING => {
                 self.attempts += 1;
-                self.connect_deadline_ns = self.now_ns + self.client.connect_timeout().as_nanos() as u64;
+                self.connect_deadline_ns = self.now_ns.saturating_add(self.client.connect_timeout().as_nanos().min((u64::MAX / 4) as u128) as u64);
             }
             CONNECTED => {
                 self.outbuf.clear(); self.written = 0; self.wire_partial.clear(); self.connect_seen = false; self.connack_sent = false; self.publishes_unacked.clear(); self.disconnect_seen = false;
